@@ -146,6 +146,8 @@ def jobs(tier):
     # negate, abs, copy (real bodies, everything inlined)
     for f in ("bintNegate", "bintAbs", "bintCopy"):
         for k, kn in K1:
+            if f == "bintAbs" and k == "i" and tier != "thorough":
+                continue
             J("bint.%s.%s" % (f, kn), "h_%s_%s" % (f, k), [f, "bintCopy", "bintNew"] + ALLOC, bk("a")[:-1],
               cls="P" if k == "i" else "B", bound=None if k == "i" else B3, unwind=UB, timeout=400,
               checks=NOPTR if k == "i" else STD)
@@ -160,35 +162,45 @@ def jobs(tier):
     for f, me, other in (("bintPlus", "bintPlus", "bintMinus"), ("bintMinus", "bintMinus", "bintPlus")):
         for k, kn in KK:
             for sg in (0, 1, 2, 3):
-                quick = (k == "ss" and sg == 0)
-                if not quick and tier != "thorough":
+                if tier != "thorough":      # 170-350 s each on a loaded machine: thorough tier only
                     continue
                 re_me = 1 if sg == 3 else 0          # both negative: one re-entry of the same function
                 J("bint.%s.%s.%s" % (f, kn, SGN[sg]), "h_%s_%s_sg%d" % (f, k, sg), [f, other] + INL,
                   bk("a")[:-1] + bk("b0")[:-1] + ["same"], cls="P" if k == "ii" else "B", bound=None if k == "ii" else B3,
                   unwind=["--slice-formula"] + UW(6, "uintLength.0:66", "%s:%d" % (me, re_me), "%s:0" % other),
                   timeout=600 if tier != "thorough" else 1800, mem_gb=14)
-        J("canary.bint." + f, "h_%s_ss_sg1" % f, [f], bk("a")[:-1] + bk("b0")[:-1] + ["same"], cls="B", bound=B3,
+        if tier == "thorough":
+          J("canary.bint." + f, "h_%s_ss_sg1" % f, [f], bk("a")[:-1] + bk("b0")[:-1] + ["same"], cls="B", bound=B3,
           unwind=["--slice-formula"] + UW(6, "uintLength.0:66", "%s:0" % me, "%s:0" % other),
-          timeout=600, mem_gb=14, defs=["-DCANARY_" + f], kind="canary")
+            timeout=1800, mem_gb=14, defs=["-DCANARY_" + f], kind="canary")
 
     # products that have a cheap exact formulation
-    J("bint.bintTimes.half_range_immediates", "h_bintTimes_half", ["bintTimes"], ["x", "y"], unwind=UB,
-      replace=E("bintNew"))
+    if tier == "thorough":
+        J("bint.bintTimes.half_range_immediates", "h_bintTimes_half", ["bintTimes"], ["x", "y"], unwind=UB,
+          replace=E("bintNew"), timeout=1500)
     for k, kn in K1:
         for u, un in (("0", "0"), ("1", "1"), ("m1", "-1")):
+            if k == "i" and u != "0" and tier != "thorough":
+                continue        # slow only because of the tagged-pointer modelling (150 s); thorough tier
             J("bint.bintTimes.by_%s.%s" % (un, kn), "h_bintTimes_unit_%s_%s" % (k, u), ["bintTimes", "bintCopy", "bintNegate", "bintNew"],
               ["swap"] + bk("b")[:-1], cls="P" if k == "i" else "B", bound=None if k == "i" else B3, unwind=UB, timeout=400,
               checks=NOPTR if k == "i" else STD)
     J("canary.bint.bintTimes", "h_bintTimes_unit_s_m1", ["bintTimes"], ["swap"] + bk("b")[:-1], cls="B", bound=B3,
       unwind=UB, defs=["-DCANARY_bintTimes"], kind="canary")
 
-    # shifts
-    for k, kn in K1:
-        J("bint.bintShift." + kn, "h_bintShift_" + k, ["bintShift", "iintShift", "bintLength", "xintStore", "bintAlloc", "xintImmedIfCan"],
-          bk("b")[:-1] + ["n"], cls="B", bound=B3 + ", result < 2^127", unwind=UB, timeout=400)
-    J("canary.bint.bintShift", "h_bintShift_s", ["bintShift"], bk("b")[:-1] + ["n"], cls="B", bound=B3, unwind=UB,
-      defs=["-DCANARY_bintShift"], kind="canary", timeout=400)
+    # shifts (bintShift: 300 s on a loaded machine, thorough tier; the digit-level iintShift jobs are in the quick tier)
+    if tier == "thorough":
+        for k, kn in K1:
+            J("bint.bintShift." + kn, "h_bintShift_" + k, ["bintShift", "iintShift", "bintLength", "xintStore", "bintAlloc", "xintImmedIfCan"],
+              bk("b")[:-1] + ["n"], cls="B", bound=B3 + ", result < 2^127", unwind=UB, timeout=1500, mem_gb=14)
+        J("canary.bint.bintShift", "h_bintShift_s", ["bintShift"], bk("b")[:-1] + ["n"], cls="B", bound=B3, unwind=UB,
+          defs=["-DCANARY_bintShift"], kind="canary", timeout=1500)
+        # product / quotient: memory safety and result form only (identities undecided)
+        J("iint.iintTimes.memory_safety_and_result_form", "h_iintTimes_wf", ["iintTimes"], st("a") + st("b") + st("r"), cls="B",
+          bound="operands <= 2 digits; the identity r == a*b is NOT decided", unwind=UB, timeout=1500, mem_gb=14)
+        J("iint.iintDivide.memory_safety_and_result_form", "h_iintDivide_wf", ["iintDivide", "iintDivideS", "iintTimesS", "bintLT"],
+          st("u") + st("v") + st("q") + st("r"), cls="B",
+          bound="dividend <= 3 digits, divisor <= 2 digits; the identity a == q*b + r is NOT decided", unwind=UB, timeout=1500, mem_gb=14)
     # bintShiftRem (fiBIntShiftRem passes the user's count): int-typed shifts by n, hence --undefined-shift-check
     SHC = STD + ["--undefined-shift-check"]
     for k, kn in K1:
@@ -213,7 +225,7 @@ def jobs(tier):
         ins = [o + "_" + x for o in objs for x in ("neg", "pa", "pc")] + extra
         js.append({"name": "mem.%s.any_length" % f, "src": "bigint_mem_h.c", "entry": "m_" + f, "functions": [f],
                    "inputs": ins, "cls": "P", "kind": "obligation", "checks": NOPTR, "native": True,
-                   "splice": {"bigint.c": "bigint.json"}, "loops": True, "timeout": 240,
+                   "splice": {"bigint.c": "bigint.json"}, "loops": True, "timeout": 400,
                    "cbmc": ["--unwind", "3", "--unwinding-assertions"]})
     # ------------------------------------------------------------------------------------------------
     # dword.c: full-word double-word primitives
